@@ -971,6 +971,13 @@ impl Run {
             eprintln!("MACHINERY: cannot write evidence {epath:?}: {e}");
             std::process::exit(EXIT_MACHINERY);
         }
+        // a per-tier copy, so that a quick run does not erase what the last thorough run covered
+        let tdir = evidence_dir.join(&self.tier_arg);
+        let _ = std::fs::create_dir_all(&tdir);
+        let _ = std::fs::write(
+            tdir.join(format!("{}.json", self.prop)),
+            serde_json::to_string_pretty(&evidence).unwrap(),
+        );
 
         // summary
         for r in &self.reports {
